@@ -13,6 +13,8 @@ pub const BUDGET: u64 = 800;
 
 #[derive(Serialize, Deserialize, Debug, Clone)]
 pub struct TwCase {
+    #[serde(default)]
+    pub raw_lines: Option<Vec<String>>,
     pub prog: Program,
     pub style: Style,
     pub seed: u64,
@@ -23,7 +25,7 @@ pub struct TwCase {
 
 fn case() -> impl Strategy<Value = TwCase> {
     let cfg = GenCfg { max_blocks: 10, allow_stop: false, ..GenCfg::C03.with_input() };
-    (gen::program(cfg), gen::style(), any::<u64>(), super::c08::replies(), 1u16..60).prop_map(|(prog, style, seed, replies, toggle_after)| TwCase { prog, style, seed, replies, toggle_after })
+    (gen::program(cfg), gen::style(), any::<u64>(), super::c08::replies(), 1u16..60).prop_map(|(prog, style, seed, replies, toggle_after)| TwCase { raw_lines: None, prog, style, seed, replies, toggle_after })
 }
 
 fn run_cfg(lines: &[String], c: &TwCase, warnings: bool, tracing: bool, via_command: bool) -> Result<Result<(Sess, Transcript), ErrInfo>, Crash> {
@@ -96,8 +98,19 @@ impl Host for Toggler {
     }
 }
 
+fn repo_case() -> impl Strategy<Value = TwCase> {
+    (0usize..2, any::<u64>(), crate::textgen::numeric_replies(), 1u16..200).prop_map(|(w, seed, replies, toggle_after)| TwCase {
+        raw_lines: Some(crate::textgen::repo_program(w)),
+        prog: Program::default(),
+        style: Style::PLAIN,
+        seed,
+        replies,
+        toggle_after,
+    })
+}
+
 fn check(c: &TwCase, rec: &mut CaseRec) -> Verdict {
-    let lines = render_program(&c.prog, c.style);
+    let lines = c.raw_lines.clone().unwrap_or_else(|| render_program(&c.prog, c.style));
     let show = |why: String| format!("{}; program {:?} replies {:?}", why, lines, c.replies);
     let mut runs: Vec<(bool, bool, Sess, Transcript)> = vec![];
     for (w, t) in [(false, false), (true, false), (false, true), (true, true)] {
@@ -159,6 +172,7 @@ fn check(c: &TwCase, rec: &mut CaseRec) -> Verdict {
     }
     // (ii) the records themselves, against the reference interpreter
     let full = &runs[3].3;
+    let model_applicable = c.raw_lines.is_none();
     let mut m = Model::new(&c.prog, c.seed);
     m.warnings = true;
     m.tracing = true;
@@ -184,7 +198,9 @@ fn check(c: &TwCase, rec: &mut CaseRec) -> Verdict {
     let model_trace = collapse(m.events.iter().filter_map(|e| if let Event::Trace(l) = e { Some(*l) } else { None }));
     let impl_warn: Vec<(String, Option<u64>)> = full.events.iter().filter_map(|e| if let TEvent::Warning(w, l) = e { Some((w.clone(), *l)) } else { None }).collect();
     let model_warn: Vec<(String, Option<u64>)> = m.events.iter().filter_map(|e| if let Event::Warning(w, l) = e { Some((w.clone(), *l)) } else { None }).collect();
-    if finished {
+    if !model_applicable {
+        rec.class("real-program(metamorphic-part-only)");
+    } else if finished {
         if impl_trace != model_trace {
             return Verdict::fail("trace-sequence-differs", show(format!("collapsed trace {:?}, execution passes through {:?}", impl_trace, model_trace)));
         }
@@ -255,7 +271,10 @@ fn check(c: &TwCase, rec: &mut CaseRec) -> Verdict {
 }
 
 pub fn property() -> Property {
-    let families: Vec<Box<dyn Family>> = vec![prop_family("programs-x-configurations", 25_000, 400_000, |_| case(), check)];
+    let families: Vec<Box<dyn Family>> = vec![
+        prop_family("programs-x-configurations", 25_000, 400_000, |_| case(), check),
+        prop_family("repo-programs", 300, 10_000, |_| repo_case(), check),
+    ];
     Property {
         id: "C17",
         rule: "Grammar-generated programs (INPUT allowed, reply scripts) that read never-assigned variables and touch undeclared arrays in conditions, subscripts, function bodies and READ/INPUT targets, run in all four warnings x tracing configurations set through the public fields, once more with TRACE typed before RUN, and twice with TRACE / NOTRACE typed at a breakpoint in the middle of the run (7 runs per case). (i) With Trace and Warning records removed, the event sequence (prints, notices, replies), the outcome and the final scalar values + state snapshot are identical in all configurations; a disabled option emits none of its records; the TRACE command equals the field. (ii) In the fully enabled run the trace records with immediate repeats collapsed equal the reference interpreter's collapsed statement-entry line sequence, and the ordered list of (warning text, line) equals the reference interpreter's (one 'Use of undeclared variable' per read of a variable absent from globals and frames, one 'Use of undeclared array' per cell read or write of a non-existent array, attributed to the line being executed). Non-trivial: >= 1 warning, >= 3 collapsed trace records and the raw outputs of the configurations really differ; distinct by program text.",
